@@ -441,11 +441,11 @@ pub fn model(cell: &Cell) -> Model {
                                 m.populate_calls = 1;
                                 m.populate_old = Some(None);
                                 match pop {
-                                    Pop::NotFound => {
+                                    Pop::NotFound | Pop::PartialNotFound(_) => {
                                         // comparison skipped, hit returned as is (and not promoted)
                                         promote = false;
                                     }
-                                    Pop::OtherErr => {
+                                    Pop::OtherErr | Pop::PartialErr(_) => {
                                         m.result = Expect::AnyErr;
                                         promote = false;
                                     }
@@ -474,8 +474,8 @@ pub fn model(cell: &Cell) -> Model {
                                         m.published = true;
                                     }
                                 }
-                                Pop::NotFound => m.result = Expect::NotFoundErr,
-                                Pop::OtherErr => m.result = Expect::AnyErr,
+                                Pop::NotFound | Pop::PartialNotFound(_) => m.result = Expect::NotFoundErr,
+                                Pop::OtherErr | Pop::PartialErr(_) => m.result = Expect::AnyErr,
                             }
                         }
                     }
@@ -491,8 +491,8 @@ pub fn model(cell: &Cell) -> Model {
                                 m.published = true;
                             }
                         }
-                        Pop::NotFound => m.result = Expect::NotFoundErr,
-                        Pop::OtherErr => m.result = Expect::AnyErr,
+                        Pop::NotFound | Pop::PartialNotFound(_) => m.result = Expect::NotFoundErr,
+                        Pop::OtherErr | Pop::PartialErr(_) => m.result = Expect::AnyErr,
                     }
                 }
             }
